@@ -150,16 +150,17 @@ theorem insertChildren_top (stops : Bool) (g : Int) (hs : List Nat) (top : Nat) 
 /-! ### no panic over whole histories (any gap ≥ 0, items replaced at will) -/
 
 /-- The invariant — it does not mention the Builder, so it survives any replacement of the items:
-    the indices are sane `uint`s (below 2^63, so `int(…)` is not negative) and a pending wants-cursor
-    request refers to a cursor at or below the top. -/
+    the top index is below 2^63 (it is 0, an index of an item, or a former cursor not above one),
+    the cursor is a `uint` value, and a pending wants-cursor request refers to a cursor at or below
+    the top. -/
 structure Inv (s : St) : Prop where
   top_ok : s.top < 2 ^ 63
   wants_ok : s.wantsCursor = true → s.top ≤ s.cursor
-  cur_ok : s.cursor < 2 ^ 63
+  cur_ok : s.cursor < U
 
-theorem cursorChild_ok (cs : List Child) (cursor top : Nat) (h1 : top ≤ cursor) (h2 : cursor < 2 ^ 63) :
-    (∃ c, cs[cursor - top]? = some c ∧ cursorChild cs cursor top = .ok (some c)) ∨
-    (cs.length ≤ cursor - top ∧ cursorChild cs cursor top = .ok none) := by
+theorem cursorChild_ok (cs : List Child) (cursor top : Nat) (h1 : top ≤ cursor) (h2 : cursor < U) :
+    (∃ c, cs[cursor - top]? = some c ∧ cursorChild true cs cursor top = .ok (some c)) ∨
+    (cs.length ≤ cursor - top ∧ cursorChild true cs cursor top = .ok none) := by
   cases hget : cs[cursor - top]? with
   | some c => exact Or.inl ⟨c, rfl, cursorChild_hit cs cursor top c h1 h2 hget⟩
   | none =>
@@ -169,10 +170,9 @@ theorem cursorChild_ok (cs : List Child) (cursor top : Nat) (h1 : top ≤ cursor
       · exact h
     refine Or.inr ⟨hl, ?_⟩
     have hu : usub cursor top = cursor - top := usub_le h1 h2
-    have ht : toInt (cursor - top) = ((cursor - top : Nat) : Int) := toInt_small (by omega)
     unfold cursorChild
-    simp only [hu, ht]
-    have : ¬ (((cursor - top : Nat) : Int) < (cs.length : Int)) := by omega
+    simp only [hu, if_true]
+    have : ¬ (cursor - top < cs.length) := by omega
     rw [if_neg this]
 
 /-- The repaired insertion loop (`stops = true`) over a builder that has every index up to `top`:
@@ -258,6 +258,20 @@ theorem drawDown_head (gap : Int) (wants : Bool) (cursor : Nat) (H : Int) (rest 
       · simp at h; rw [← h]; exact ⟨rfl, rfl⟩
       · rw [ht] at h; simp at h; rw [← h]; exact ⟨rfl, rfl⟩
 
+theorem gutter_ok (cfg : Cfg) (cs : List Child) (s : St) (hc : s.cursor < U) :
+    gutter Facts.fixed cfg cs s = .ok () := by
+  unfold gutter
+  split
+  · rename_i hcond
+    have hle : s.top ≤ s.cursor := by
+      rcases hcond.2 with h | h
+      · cases h
+      · exact h
+    have e : Facts.fixed.uintIndex = true := rfl
+    rw [e]
+    rcases cursorChild_ok cs s.cursor s.top hle hc with ⟨c, _, e⟩ | ⟨_, e⟩ <;> rw [e]
+  · rfl
+
 theorem prologue_pending (s : St) : (prologue s).2.pending = 0 := by
   unfold prologue; simp only []; split <;> rfl
 
@@ -271,7 +285,7 @@ theorem draw_phases (cfg : Cfg) (hs : List Nat) (hlen : hs.length < 2 ^ 63) (s :
       scrollUp true cfg.gap hs (prologue sc).2 (prologue sc).1 = .ok (ah2, s2, cs0) ∧
       cs1 = drawDown cfg.gap s2.wantsCursor s2.cursor H (hs.drop sc.top) sc.top ah2 cs0 ∧
       Contig cfg.gap cs1 ∧ Heights hs cs1 ∧ (∀ f, cs1.head? = some f → f.idx = s2.top) ∧
-      reveal true cs1 s2 H = .ok (cs2, s3) ∧ Contig cfg.gap cs2 ∧ Heights hs cs2 ∧
+      reveal true true cs1 s2 H = .ok (cs2, s3) ∧ Contig cfg.gap cs2 ∧ Heights hs cs2 ∧
       (∀ f, cs2.head? = some f → f.idx = s2.top) ∧
       s3.top = s2.top ∧ s3.offset = s2.offset ∧ s3.cursor = s2.cursor ∧ s3.pending = s2.pending ∧
       cs2.length = cs1.length ∧
@@ -331,20 +345,11 @@ theorem draw_phases (cfg : Cfg) (hs : List Nat) (hlen : hs.length < 2 ^ 63) (s :
       omega
   have hcur : s2.cursor = s.cursor := by rw [scur, p2, k3]
   have hwants : s2.wantsCursor = s.wantsCursor := by rw [sw, p3, k4]
-  have hc63 : s2.cursor < 2 ^ 63 := by rw [hcur]; exact hi.cur_ok
+  have hc63 : s2.cursor < U := by rw [hcur]; exact hi.cur_ok
   -- gutter
-  have hgut : gutter Facts.fixed cfg cs1 s2 = .ok () := by
-    unfold gutter
-    split
-    · rename_i hc
-      have hle : s2.top ≤ s2.cursor := by
-        rcases hc.2 with h | h
-        · cases h
-        · exact h
-      rcases cursorChild_ok cs1 s2.cursor s2.top hle hc63 with ⟨c, _, e⟩ | ⟨_, e⟩ <;> rw [e]
-    · rfl
+  have hgut : gutter Facts.fixed cfg cs1 s2 = .ok () := gutter_ok cfg cs1 s2 hc63
   -- reveal
-  have hrev : ∃ cs2 s3, reveal true cs1 s2 H = .ok (cs2, s3) ∧ Contig cfg.gap cs2 ∧ Heights hs cs2 ∧
+  have hrev : ∃ cs2 s3, reveal true true cs1 s2 H = .ok (cs2, s3) ∧ Contig cfg.gap cs2 ∧ Heights hs cs2 ∧
       (∀ f, cs2.head? = some f → f.idx = s2.top) ∧ s3.top = s2.top ∧ s3.offset = s2.offset ∧
       s3.cursor = s2.cursor ∧ s3.pending = s2.pending ∧
       cs2.length = cs1.length ∧
@@ -383,7 +388,7 @@ theorem draw_phases (cfg : Cfg) (hs : List Nat) (hlen : hs.length < 2 ^ 63) (s :
   rw [← hsc]
   simp only [hsu]
   rw [p1, ← hcs1]
-  have hgut' : gutter ⟨true, true, true, true, true⟩ cfg cs1 s2 = .ok () := hgut
+  have hgut' : gutter ⟨true, true, true, true, true, true⟩ cfg cs1 s2 = .ok () := hgut
   rw [hgut']
   simp only [hrv]
 
@@ -395,7 +400,7 @@ theorem draw_inv (cfg : Cfg) (hgap : 0 ≤ cfg.gap) (hs : List Nat) (hlen : hs.l
       s'.cursor = s.cursor ∧ s'.pending = 0 := by
   obtain ⟨sc, ah2, s2, cs0, cs1, cs2, s3, hsc, hsu, hcs1, dd1, dd2, hhead, hrv, c2, h2, hd2, t3, o3, cu3, pe3, len2, w3,
     k2, k1, k6, htop2, hcur, hwants, hpend, st3, hlen0, hdraw⟩ := draw_phases cfg hs hlen s W H hW hH hi
-  have hc63 : s2.cursor < 2 ^ 63 := by rw [hcur]; exact hi.cur_ok
+  have hc63 : s2.cursor < U := by rw [hcur]; exact hi.cur_ok
   have ht63 := hi.top_ok
   refine ⟨_, cs2, hdraw, ?_⟩
   rcases retop_spec cfg.gap hgap cs2 0 s3.top s3.offset c2 with hr | ⟨k, c, hk, _, hr⟩
@@ -403,7 +408,7 @@ theorem draw_inv (cfg : Cfg) (hgap : 0 ≤ cfg.gap) (hs : List Nat) (hlen : hs.l
     refine ⟨⟨?_, ?_, ?_⟩, ?_, ?_, ?_⟩
     · show s3.top < 2 ^ 63; rw [t3]; omega
     · intro hw; show s3.top ≤ s3.cursor; rw [t3, cu3]; exact (w3 hw).1
-    · show s3.cursor < 2 ^ 63; rw [cu3]; exact hc63
+    · show s3.cursor < U; rw [cu3]; exact hc63
     · show s3.top = 0 ∨ s3.top < hs.length; rw [t3]; omega
     · show s3.cursor = s.cursor; rw [cu3, hcur]
     · show s3.pending = 0; rw [pe3, hpend]
@@ -425,21 +430,21 @@ theorem draw_inv (cfg : Cfg) (hgap : 0 ≤ cfg.gap) (hs : List Nat) (hlen : hs.l
       show s3.top + k ≤ s3.cursor
       obtain ⟨a, b⟩ := w3 hw
       rw [t3, cu3]; omega
-    · show s3.cursor < 2 ^ 63; rw [cu3]; exact hc63
+    · show s3.cursor < U; rw [cu3]; exact hc63
     · show s3.top + k = 0 ∨ s3.top + k < hs.length; rw [t3]; omega
     · show s3.cursor = s.cursor; rw [cu3, hcur]
     · show s3.pending = 0; rw [pe3, hpend]
 
-theorem ensureScroll_inv (s : St) (c : Nat) (ht : s.top < 2 ^ 63) (hc : c < 2 ^ 63) :
+theorem ensureScroll_inv (s : St) (c : Nat) (ht : s.top < 2 ^ 63) (hc : c < U) :
     Inv (ensureScroll { s with cursor := c }) := by
   unfold ensureScroll
   simp only []
   split
   · rename_i h
     exact ⟨ht, fun _ => Nat.le_of_lt h, hc⟩
-  · exact ⟨hc, fun _ => Nat.le_refl _, hc⟩
+  · rename_i h; exact ⟨by simp only [] at h ⊢; omega, fun _ => Nat.le_refl _, hc⟩
 
-theorem init_inv : Inv init := ⟨by decide, (fun h => by cases h), by decide⟩
+theorem init_inv : Inv init := ⟨by decide, (fun h => by cases h), by unfold U; decide⟩
 
 theorem step_inv (cfg : Cfg) (hgap : 0 ≤ cfg.gap) (hs : List Nat) (hlen : hs.length < 2 ^ 63)
     (s : St) (op : Op) (hi : Inv s) (ho : OpOk op) :
@@ -448,14 +453,11 @@ theorem step_inv (cfg : Cfg) (hgap : 0 ≤ cfg.gap) (hs : List Nat) (hlen : hs.l
   | setCursor c => exact ⟨_, rfl, ensureScroll_inv s c hi.top_ok ho⟩
   | next =>
     refine ⟨(nextItem hs s).1, rfl, ?_⟩
-    have hu : uadd s.cursor 1 = s.cursor + 1 := by have := hi.cur_ok; unfold uadd U; omega
     unfold nextItem
-    rw [hu]
-    cases hb : builder hs (s.cursor + 1) with
+    cases hb : builder hs (uadd s.cursor 1) with
     | none => exact hi
     | some h =>
-      have : s.cursor + 1 < hs.length := getElem?_lt hb
-      exact ensureScroll_inv s _ hi.top_ok (by omega)
+      exact ensureScroll_inv s _ hi.top_ok (by unfold uadd; exact Nat.mod_lt _ (by unfold U; decide))
   | prev =>
     refine ⟨(prevItem hs s).1, rfl, ?_⟩
     unfold prevItem
@@ -479,8 +481,8 @@ theorem step_inv (cfg : Cfg) (hgap : 0 ≤ cfg.gap) (hs : List Nat) (hlen : hs.l
     obtain ⟨s', cs, he, hi', _⟩ := draw_inv cfg hgap hs hlen s W H ho.1 ho.2 hi
     exact ⟨s', by simp [step, he], hi'⟩
 
-/-- Operations of a history with item replacement that a sane caller issues: cursors below 2^63,
-    bounded draw contexts, fewer than 2^63 items. -/
+/-- Operations of a history with item replacement: cursors are `uint` values, draw contexts are
+    bounded, the Builder has fewer than 2^63 items. -/
 def HOpOk : HOp → Prop
   | .op o => OpOk o
   | .items hs => hs.length < 2 ^ 63
@@ -552,20 +554,18 @@ theorem run_inv_top (cfg : Cfg) (hgap : 0 ≤ cfg.gap) (hs : List Nat) (hlen : h
 
 /-- `NextItem` / `PrevItem` that return a command moved the cursor to an existing item `c` and then
     called `ensureScroll`. -/
-theorem next_prev_cases (hs : List Nat) (s s1 : St) (hcu : s.cursor < 2 ^ 63)
+theorem next_prev_cases (hs : List Nat) (s s1 : St) (hcu : s.cursor < U)
     (hmove : (nextItem hs s = (s1, true)) ∨ (prevItem hs s = (s1, true))) :
     ∃ c, c < hs.length ∧ s1 = ensureScroll { s with cursor := c } ∧ s1.cursor = c := by
   have cur_es : ∀ c, (ensureScroll { s with cursor := c }).cursor = c := by
     intro c; unfold ensureScroll; simp only []; split <;> rfl
   rcases hmove with h | h
-  · have hu : uadd s.cursor 1 = s.cursor + 1 := by unfold uadd U; omega
-    unfold nextItem at h
-    rw [hu] at h
-    cases hb : builder hs (s.cursor + 1) with
+  · unfold nextItem at h
+    cases hb : builder hs (uadd s.cursor 1) with
     | none => rw [hb] at h; cases h
     | some hc =>
       rw [hb] at h
-      have e : s1 = ensureScroll { s with cursor := s.cursor + 1 } := (Prod.mk.inj h).1.symm
+      have e : s1 = ensureScroll { s with cursor := uadd s.cursor 1 } := (Prod.mk.inj h).1.symm
       exact ⟨_, getElem?_lt hb, e, by rw [e]; exact cur_es _⟩
   · unfold prevItem at h
     by_cases h0 : s.cursor = 0
@@ -741,7 +741,7 @@ theorem draw_first_row (cfg : Cfg) (hgap : 0 ≤ cfg.gap) (hs : List Nat) (hlen 
             have hle : s2.top ≤ s2.cursor := by
               have := hi.wants_ok (by rw [← hwants]; assumption)
               rw [hcur]; omega
-            have hc63 : s2.cursor < 2 ^ 63 := by rw [hcur]; exact hi.cur_ok
+            have hc63 : s2.cursor < U := by rw [hcur]; exact hi.cur_ok
             rcases cursorChild_ok cs1 s2.cursor s2.top hle hc63 with ⟨c', hcg, e⟩ | ⟨_, e⟩
             · rw [e] at hcc
               simp only [Except.ok.injEq, Option.some.injEq] at hcc
@@ -780,7 +780,7 @@ theorem ensureScroll_draw_visible (cfg : Cfg) (hs : List Nat) (hlen : hs.length 
     ∃ s' cs, draw Facts.fixed cfg hs (ensureScroll { s with cursor := c }) W H = .ok (s', cs) ∧
       ∃ ch ∈ cs, ch.idx = c ∧ ch.height = hc ∧ Visible H ch := by
   have hcn : c < hs.length := getElem?_lt hcur
-  have hc63 : c < 2 ^ 63 := by omega
+  have hc63 : c < U := by unfold U; omega
   obtain ⟨s1, hs1⟩ : ∃ x, x = ensureScroll { s with cursor := c } := ⟨_, rfl⟩
   have hi1 : Inv s1 := by rw [hs1]; exact ensureScroll_inv s c ht hc63
   have hs1c : s1.cursor = c := by rw [hs1]; unfold ensureScroll; simp only []; split <;> rfl
@@ -842,7 +842,7 @@ theorem ensureScroll_draw_visible (cfg : Cfg) (hs : List Nat) (hlen : hs.length 
     have := dd2 ch hchmem
     rw [hidx, hcur] at this
     exact (Option.some.inj this).symm
-  have hcc : cursorChild cs1 s2.cursor s2.top = .ok (some ch) := by
+  have hcc : cursorChild true cs1 s2.cursor s2.top = .ok (some ch) := by
     rw [hcur2]; exact cursorChild_hit cs1 _ _ ch hle2 hc63 hchget
   refine ⟨_, cs2, hdraw, ?_⟩
   by_cases hw : s2.wantsCursor = true
